@@ -86,6 +86,7 @@ Print Assumptions C12_never_skipped_contrapositive.
    session afterwards filters like the new chain. *)
 Theorem C12_family_export_converges :
   forall (s : sess) (f : family) (a : aro chain) (c : chain) (v : view),
+  fam_up f = true ->
   rguards (interp (fam_exp f)) (interp c) s v ->
   cur a = fam_exp f -> (s_addpath s = true -> Inv chain a) ->
   ribout_is_export_view (interp (fam_exp f)) s v a ->
@@ -99,6 +100,7 @@ Print Assumptions C12_family_export_converges.
 
 Theorem C12_family_import_converges :
   forall (f : family) (r : rin) (other l : loc) (c : chain),
+  fam_up f = true ->
   iguards (interp (fam_imp f)) (interp c) r other ->
   Permutation l (other ++ establish (interp (fam_imp f)) r) ->
   let x' := fam_replace_import (f, l) r c in
@@ -106,6 +108,45 @@ Theorem C12_family_import_converges :
   (forall pfx p, interp (fam_imp (fst x')) pfx p = interp c pfx p).
 Proof. exact family_import_converges. Qed.
 Print Assumptions C12_family_import_converges.
+
+(* Established or not, a replacement is stored: afterwards the address family holds chains that filter like
+   the new ones (a session that is down has no tables to touch) ... *)
+Theorem C12_family_replace_stores :
+  forall (s : sess) (f : family) (a : aro chain) (l : loc) (r : rin) (c : chain) (v : view),
+  (forall pfx p, interp (fam_exp (fst (fam_replace_export s (f, a) c v))) pfx p = interp c pfx p) /\
+  (forall pfx p, interp (fam_imp (fst (fam_replace_import (f, l) r c))) pfx p = interp c pfx p) /\
+  fam_up (fst (fam_replace_export s (f, a) c v)) = fam_up f /\
+  fam_up (fst (fam_replace_import (f, l) r c)) = fam_up f /\
+  (fam_up f = false -> snd (fam_replace_export s (f, a) c v) = a /\ snd (fam_replace_import (f, l) r c) = l).
+Proof. exact family_replace_stores. Qed.
+Print Assumptions C12_family_replace_stores.
+
+(* ... init() builds the Adj-RIB-Out from the stored chain and the Loc-RIB's initial dump: the export view
+   under that chain (C08 guards on the dump) ... *)
+Theorem C12_family_init_converges :
+  forall (s : sess) (f : family) (v : view),
+  guards (interp (fam_exp f)) s v -> NoDup (map fst v) ->
+  let x' := fam_init_export s f v in
+  errs (snd x') = 0 ->
+  ribout_is_export_view (interp (fam_exp f)) s (fst (feed chain interp s (fam_exp f) v)) (snd x') /\
+  fam_up (fst x') = true /\ cur (snd x') = fam_exp f.
+Proof. exact family_init_converges. Qed.
+Print Assumptions C12_family_init_converges.
+
+(* ... so a replacement that arrives while the session is down (before the first establishment, or between
+   dispose() and the next init(), any number of times) is not lost: the session that comes up next holds
+   the export view under the NEW policy *)
+Theorem C12_family_down_replace_then_init :
+  forall (s : sess) (f : family) (a : aro chain) (c : chain) (v0 v : view),
+  let f' := fst (fam_replace_export s (f, a) c v0) in
+  guards (interp (fam_exp f')) s v -> NoDup (map fst v) ->
+  let x' := fam_init_export s f' v in
+  errs (snd x') = 0 ->
+  forall pfx, Permutation (map (norm s) (tbl_get pfx (tbl (snd x'))))
+                          (map (norm s) (export_view (interp c) s pfx
+                                           (view_get pfx (fst (feed chain interp s (fam_exp f') v))))).
+Proof. exact family_down_replace_then_init. Qed.
+Print Assumptions C12_family_down_replace_then_init.
 
 (* either nothing happened - which by the two theorems above is right - or the new chain is installed *)
 Theorem C12_never_skipped_family : forall s f a c v,
